@@ -148,7 +148,49 @@ def build_source(case):
             for a in d.arguments:
                 if rng.random() < 0.4:
                     a.python_name = "py_" + a.name
+    _rekey_defaults(schema)
     return schema
+
+
+def _rekey_value(value, type_):
+    """Coerced input-object values are keyed by python_name: after renaming
+    python names of input fields, re-key the defaults that were coerced
+    before the renaming so that the source schema stays self-consistent."""
+    from py_gql.schema import ListType, NonNullType
+    while isinstance(type_, NonNullType):
+        type_ = type_.type
+    if value is None:
+        return value
+    if isinstance(type_, ListType):
+        if isinstance(value, (list, tuple)):
+            return [_rekey_value(v, type_.type) for v in value]
+        return _rekey_value(value, type_.type)
+    if isinstance(type_, InputObjectType) and isinstance(value, dict):
+        out = {}
+        for f in type_.fields:
+            for key in (f.python_name, f.name):
+                if key in value:
+                    out[f.python_name] = _rekey_value(value[key], f.type)
+                    break
+        return out
+    return value
+
+
+def _rekey_defaults(schema):
+    def fix(iv):
+        if iv.has_default_value:
+            iv._default_value = _rekey_value(iv._default_value, iv.type)
+    for t in schema.types.values():
+        if isinstance(t, (ObjectType, InterfaceType)):
+            for f in t.fields:
+                for a in f.arguments:
+                    fix(a)
+        if isinstance(t, InputObjectType):
+            for f in t.fields:
+                fix(f)
+    for d in schema.directives.values():
+        for a in d.arguments:
+            fix(a)
 
 
 # ----------------------------------------------------------------- operations
@@ -823,7 +865,7 @@ def corpus():
 
 
 def generate(rng, tier):
-    n = 75 if tier == "quick" else 900
+    n = 75 if tier == "quick" else 650
     cases = []
     for _ in range(n):
         sdl = gen_store.gen_schema_sdl(rng)
